@@ -613,6 +613,49 @@ func ruleResumeCursor(c *Ctx) {
 		return true
 	})
 	sort.Slice(sites, func(i, j int) bool { return sites[i].scan.Pos() < sites[j].scan.Pos() })
+	// a resume cursor is a key, never a position: between two batches the lock is released and other
+	// connections insert and remove entries, so the k-th entry of a guarded container is a different entry
+	// in the next critical section
+	guarded := c.muData().guarded
+	nPos := 0
+	ast.Inspect(fn.Decl.Body, func(n ast.Node) bool {
+		call, ok := n.(*ast.CallExpr)
+		if !ok || len(call.Args) < 1 {
+			return true
+		}
+		se, ok := ast.Unparen(call.Fun).(*ast.SelectorExpr)
+		if !ok || !(se.Sel.Name == "GetAt" || se.Sel.Name == "DeleteAt") {
+			return true
+		}
+		fv := selField(info, se.X)
+		if fv == nil || guarded[fv] == "" {
+			return true
+		}
+		nPos++
+		key := "positional/" + guarded[fv] + "." + se.Sel.Name
+		carried := false
+		ast.Inspect(call.Args[0], func(m ast.Node) bool {
+			id, ok := m.(*ast.Ident)
+			if !ok {
+				return true
+			}
+			v, ok := info.ObjectOf(id).(*types.Var)
+			if !ok || v.IsField() {
+				return true
+			}
+			if lit := enclosingFuncLit(c.Program, call); lit != nil && !(lit.Pos() <= v.Pos() && v.Pos() < lit.End()) {
+				carried = true // declared outside the literal that holds the lock: it survives the critical section
+			}
+			return true
+		})
+		if carried {
+			c.bad(key, call.Pos(), "%s is addressed by a position (%s) that is kept from one critical section of the rewrite to the next: entries inserted or removed by other connections in between shift the positions, so the scan skips or repeats a collection and the rewritten log loses or duplicates it", guarded[fv], exprStr(call.Args[0]))
+		} else {
+			c.ok(key, call.Pos(), true, "positional access with an index that lives inside one critical section")
+		}
+		return true
+	})
+	c.stat("positional_accesses_in_rewrite", nPos)
 	if len(sites) < 2 {
 		c.bad("iterators", fn.Decl.Pos(), "expected two batch iterators with a resume cursor in aofshrink, found %d", len(sites))
 	}
